@@ -144,8 +144,14 @@ def run(ctx):
         raise common.CheckError("cargo build harness-proto (std threads) failed:\n" + lg[-3000:])
     d = os.path.join(out, "std")
     os.makedirs(d)
-    rc, lg = common.sh([os.path.join(tdir, "release", "proto_harness"), "--out", d,
-                        "--iters", str(max(10, iters // 4)), "--seed", str(ctx.seed)], timeout=3000)
+    import subprocess
+    try:
+        rc, lg = common.sh([os.path.join(tdir, "release", "proto_harness"), "--out", d,
+                            "--iters", str(max(10, iters // 4)), "--seed", str(ctx.seed)], timeout=900)
+    except subprocess.TimeoutExpired as e:
+        # the free-running workloads take seconds: not finishing within 15 minutes is a hang (threads waiting
+        # for each other, or spinning in Edges::depends_on on a cyclic edge map)
+        rc, lg = -9, "panicked: (none) — the OS-thread workload did not finish within 900 s: HANG\n" + str(e.output or "")[-1500:]
     cls = known_death(lg, None) if rc != 0 else None
     if cls is not None and listed(ctx.prop, cls[0]):
         known_met.setdefault(cls[0], []).append(dict(scheduler="os", workload="(free running)", detail=cls[1]))
